@@ -73,6 +73,13 @@ pub struct KvInner {
     /// every effective mutation of the case, in order (crash points)
     pub log: Vec<(u16, Option<Vec<u8>>)>,
     pub failed_calls: u64,
+    /// handler-level path: keys other than the fabric / networks / resumption keys (event epoch,
+    /// basic info, ...) are stored but neither logged nor hit by injected faults
+    pub h_mode: bool,
+}
+
+pub fn tracked_key(key: u16) -> bool {
+    (key >= FABRIC_KEYS_START + 1 && key <= FABRIC_KEYS_START + 255) || key == NETWORKS_KEY || key == CASE_RESUMPTION_KEY
 }
 
 impl KvInner {
@@ -108,6 +115,10 @@ impl KvBlobStore for Kv {
 
     fn store(&mut self, key: u16, data: &[u8], _buf: &mut [u8]) -> Result<(), Error> {
         let mut i = self.0.borrow_mut();
+        if i.h_mode && !tracked_key(key) {
+            i.map.insert(key, data.to_vec());
+            return Ok(());
+        }
         if i.fault() {
             return Err(ErrorCode::NoSpace.into());
         }
@@ -118,6 +129,10 @@ impl KvBlobStore for Kv {
 
     fn remove(&mut self, key: u16, _buf: &mut [u8]) -> Result<(), Error> {
         let mut i = self.0.borrow_mut();
+        if i.h_mode && !tracked_key(key) {
+            i.map.remove(&key);
+            return Ok(());
+        }
         if i.fault() {
             return Err(ErrorCode::NoSpace.into());
         }
@@ -135,6 +150,12 @@ pub struct Ca {
     key: CanonPkcSecretKey,
     pubkey: CanonPkcPublicKey,
     rcac: Vec<u8>,
+}
+
+impl Ca {
+    pub fn rcac(&self) -> &[u8] {
+        &self.rcac
+    }
 }
 
 const VALIDITY: Validity = Validity { not_before: 1, not_after: 0 };
@@ -162,7 +183,7 @@ fn make_ca<C: Crypto>(crypto: &C, id: u64) -> Ca {
     Ca { key, pubkey, rcac: buf[..len].to_vec() }
 }
 
-fn make_noc<C: Crypto>(crypto: &C, ca: &Ca, ca_id: u64, fid: u64, node: u64, serial: u64, subject: &CanonPkcPublicKey) -> Vec<u8> {
+pub fn make_noc_for<C: Crypto>(crypto: &C, ca: &Ca, ca_id: u64, fid: u64, node: u64, serial: u64, subject: &CanonPkcPublicKey) -> Vec<u8> {
     let sk = crypto.secret_key(ca.key.reference()).unwrap();
     let mut buf = [0u8; MAX_CERT_TLV_AND_ASN1_LEN];
     let ser = [0x40 | ((serial >> 8) as u8 & 0x3f), serial as u8];
@@ -215,7 +236,7 @@ fn nz(x: u8) -> Option<NonZeroU8> {
     NonZeroU8::new(x)
 }
 
-fn rid16(rid: u64) -> [u8; 16] {
+pub fn rid16(rid: u64) -> [u8; 16] {
     let mut b = [0u8; 16];
     b[..8].copy_from_slice(&rid.to_le_bytes());
     b[15] = 0xa5;
@@ -232,23 +253,14 @@ fn ssid(n: u64) -> Vec<u8> {
     format!("net{}", n).into_bytes()
 }
 
-impl World {
-    pub fn new(cas: Rc<Vec<Ca>>) -> Self {
-        World {
-            matter: new_matter(),
-            nets: Box::new(SharedNetworks::new(WifiNetworks::new())),
-            kv: Kv::default(),
-            cas,
-            noc_serial: HashMap::new(),
-        }
-    }
+// ------------------------------------------------------------------------------------------------
+// canonical state
 
-    // ---------------------------------------------------------------- canonical state
-    fn canon_fabrics(&self, fabrics: &Fabrics) -> String {
+fn canon_fabrics(cas: &[Ca], noc_serial: &HashMap<Vec<u8>, u64>, fabrics: &Fabrics) -> String {
         let mut v: Vec<(u8, String)> = Vec::new();
         for f in fabrics.iter() {
-            let ca = self.cas.iter().position(|c| c.rcac == f.root_ca()).map(|i| i as i64 + 1).unwrap_or(-1);
-            let ser = self.noc_serial.get(f.noc()).copied().map(|x| x as i64).unwrap_or(-1);
+            let ca = cas.iter().position(|c| c.rcac == f.root_ca()).map(|i| i as i64 + 1).unwrap_or(-1);
+            let ser = noc_serial.get(f.noc()).copied().map(|x| x as i64).unwrap_or(-1);
             let acl: Vec<String> = f
                 .acl_iter()
                 .map(|e| {
@@ -282,12 +294,12 @@ impl World {
         s.join(";")
     }
 
-    fn canon_resum(r: &ResumableSessions) -> String {
+fn canon_resum(r: &ResumableSessions) -> String {
         let v: Vec<String> = r.iter().map(|x| format!("{}.{}.{}", x.fab_idx.get(), x.peer_nodeid, rid_of(&x.verif_rid()))).collect();
         v.join(";")
     }
 
-    fn canon_nets(n: &mut dyn Networks) -> String {
+pub fn canon_nets(n: &mut dyn Networks) -> String {
         let mut v: Vec<String> = Vec::new();
         let _ = n.networks(&mut |id| {
             v.push(String::from_utf8_lossy(id).trim_start_matches("net").to_string());
@@ -296,13 +308,13 @@ impl World {
         format!("{}:{}", if v.is_empty() { "-".to_string() } else { v.join(",") }, if n.managed().unwrap_or(false) { 1 } else { 0 })
     }
 
-    /// what a restart would load: fabrics, networks, resumption records decoded from the store
-    fn canon_kv(&self) -> String {
-        let mut store = self.kv.clone();
+/// what a restart would load: fabrics, networks, resumption records decoded from the store
+fn canon_kv(kvh: &Kv, cas: &[Ca], noc_serial: &HashMap<Vec<u8>, u64>) -> String {
+        let mut store = kvh.clone();
         let mut buf = vec![0u8; 8192];
         let mut fabrics = Fabrics::new();
         let fs = match fabrics.load_persist(&mut store, &mut buf) {
-            Ok(()) => self.canon_fabrics(&fabrics),
+            Ok(()) => canon_fabrics(cas, noc_serial, &fabrics),
             Err(e) => format!("ERR{}", code(&e)),
         };
         let mut nets: WifiNetworks<4> = WifiNetworks::new();
@@ -310,22 +322,22 @@ impl World {
             Ok(Some(data)) => {
                 let data = data.to_vec();
                 match Networks::load(&mut nets, &data) {
-                    Ok(()) => Self::canon_nets(&mut nets),
+                    Ok(()) => canon_nets(&mut nets),
                     Err(e) => format!("ERR{}", code(&e)),
                 }
             }
             Ok(None) => "none".into(),
             Err(e) => format!("ERR{}", code(&e)),
         };
-        let rs = if self.kv.0.borrow().map.contains_key(&CASE_RESUMPTION_KEY) {
+        let rs = if kvh.0.borrow().map.contains_key(&CASE_RESUMPTION_KEY) {
             // decode on a copy so that the soft-fail path (which removes the blob) does not touch the real store
             let mut copy = Kv::default();
-            copy.0.borrow_mut().map = self.kv.0.borrow().map.clone();
+            copy.0.borrow_mut().map = kvh.0.borrow().map.clone();
             let mut r = ResumableSessions::new();
             match r.load_persist(&mut copy, &mut buf) {
                 Ok(()) => {
                     if copy.0.borrow().map.contains_key(&CASE_RESUMPTION_KEY) {
-                        format!("[{}]", Self::canon_resum(&r))
+                        format!("[{}]", canon_resum(&r))
                     } else {
                         "bad".into()
                     }
@@ -335,22 +347,22 @@ impl World {
         } else {
             "none".into()
         };
-        let other: Vec<String> = self
-            .kv
+        let other: Vec<String> = kvh
             .0
             .borrow()
             .map
             .keys()
-            .filter(|k| !(**k >= FABRIC_KEYS_START + 1 && **k <= FABRIC_KEYS_START + 255) && **k != NETWORKS_KEY && **k != CASE_RESUMPTION_KEY)
+            .filter(|k| !tracked_key(**k) && !kvh.0.borrow().h_mode)
             .map(|k| k.to_string())
             .collect();
         format!("F[{}] N[{}] R{} O[{}]", fs, ns, rs, other.join(","))
     }
 
-    pub fn dump(&self) -> String {
-        let mem = self.matter.with_state(|state| {
+/// the complete canonical administrative state of a node (shared by both paths)
+pub fn canon_state(matter: &Matter<'_>, nets: &str, kvh: &Kv, cas: &[Ca], noc_serial: &HashMap<Vec<u8>, u64>) -> String {
+        let mem = matter.with_state(|state| {
             let p = state.verif_parts();
-            let fs = self.canon_fabrics(p.fabrics);
+            let fs = canon_fabrics(cas, noc_serial, p.fabrics);
             let mut ss: Vec<(u32, String)> = p
                 .sessions
                 .iter()
@@ -366,7 +378,7 @@ impl World {
                 .collect();
             ss.sort();
             let ss: Vec<String> = ss.into_iter().map(|x| x.1).collect();
-            let rs = Self::canon_resum(p.resumption);
+            let rs = canon_resum(p.resumption);
             let fsafe = match p.failsafe.verif_armed() {
                 None => "idle".to_string(),
                 Some((fab, flags, to, _)) => format!("{}.{}.{}", fab, flags, to),
@@ -380,8 +392,24 @@ impl World {
             };
             format!("F[{}] S[{}] R[{}] FS[{}] BC={} W[{}]", fs, ss.join(";"), rs, fsafe, p.failsafe.breadcrumb(), w)
         });
-        let nets = self.nets.access(|n| Self::canon_nets(n));
-        format!("{} N[{}] KV{{{}}} k={}", mem, nets, self.canon_kv(), self.kv.0.borrow().log.len())
+        format!("{} N[{}] KV{{{}}} k={}", mem, nets, canon_kv(kvh, cas, noc_serial), kvh.0.borrow().log.len())
+}
+
+
+impl World {
+    pub fn new(cas: Rc<Vec<Ca>>) -> Self {
+        World {
+            matter: new_matter(),
+            nets: Box::new(SharedNetworks::new(WifiNetworks::new())),
+            kv: Kv::default(),
+            cas,
+            noc_serial: HashMap::new(),
+        }
+    }
+
+    pub fn dump(&self) -> String {
+        let nets = self.nets.access(|n| canon_nets(n));
+        canon_state(&self.matter, &nets, &self.kv, &self.cas, &self.noc_serial)
     }
 
     /// a light view of the real state for the online generator
@@ -435,7 +463,8 @@ impl World {
                 p.failsafe.check_failsafe_timeout(p.fabrics, p.sessions, &*self.nets, &kv, expire_sess_id, || {}, |_, _| {})?
             };
             if let Some(f) = removed {
-                state.verif_purge_resumption_for_fabric(f, &kv)?;
+                // im.rs: a failing store of the purged cache is logged, not returned
+                let _ = state.verif_purge_resumption_for_fabric(f, &kv);
             }
             let p = state.verif_parts();
             p.pase.check_comm_window_timeout(|| {}, |_, _| {})?;
@@ -619,10 +648,10 @@ impl World {
                 let kv = self.matter.kv(self.kv.clone());
                 self.matter.with_state(|state| {
                     if secs == 0 {
-                        let pase_sess_id = matches!(mode, SessionMode::Pase { .. }).then_some(sid);
+                        let own_sess_id = Some(sid);
                         let r = {
                             let p = state.verif_parts();
-                            p.failsafe.expire(p.fabrics, p.sessions, pase_sess_id, &*self.nets, &kv, || {}, |_, _| {})
+                            p.failsafe.expire(p.fabrics, p.sessions, own_sess_id, &*self.nets, &kv, || {}, |_, _| {})
                         };
                         match r {
                             Ok(Some(f)) => st(state.verif_purge_resumption_for_fabric(f, &kv)),
@@ -675,7 +704,7 @@ impl World {
                     return code(&e);
                 }
                 let pk = self.csr_pubkey();
-                let noc = make_noc(&crypto, &self.cas[ca], ca as u64 + 1, fid, node, serial, &pk);
+                let noc = make_noc_for(&crypto, &self.cas[ca], ca as u64 + 1, fid, node, serial, &pk);
                 self.noc_serial.insert(noc.clone(), serial);
                 let time = self.matter.with_rtc(|r| r.utc_time());
                 let mut buf = vec![0u8; 2048];
@@ -714,7 +743,7 @@ impl World {
                     Some((root, fid)) => (self.cas.iter().position(|c| c.rcac == root).unwrap_or(0), fid),
                     None => (0, 1),
                 };
-                let noc = make_noc(&crypto, &self.cas[ca], ca as u64 + 1, fid, node, serial, &pk);
+                let noc = make_noc_for(&crypto, &self.cas[ca], ca as u64 + 1, fid, node, serial, &pk);
                 self.noc_serial.insert(noc.clone(), serial);
                 let time = self.matter.with_rtc(|r| r.utc_time());
                 let mut buf = vec![0u8; 2048];
@@ -834,7 +863,7 @@ impl World {
                 // adm_comm.rs:255
                 let kv = self.matter.kv(self.kv.clone());
                 self.matter.with_state(|state| {
-                    let expire_sess_id = matches!(mode, SessionMode::Pase { .. }).then_some(sid);
+                    let expire_sess_id = Some(sid);
                     let r = {
                         let p = state.verif_parts();
                         p.failsafe.expire(p.fabrics, p.sessions, expire_sess_id, &*self.nets, &kv, || {}, |_, _| {})
